@@ -28,6 +28,8 @@ TOTALITY_ALLOW = {
 
 
 def run(c):
+    import r9
+    c.r9("C04")
     # --- validation precedes any use of the header
     c.r1("validate-before-store", P + "process_block_header", VH, sink=P + "add_block_header", via=2)
     c.r1("validate-before-extending", P + "process_block_header", VH, sink="grin_chain::txhashset::txhashset::header_extending", via=2)
